@@ -30,7 +30,8 @@ package main
            (= issued (store (old issued) (aeadkey (. w aesgcm))
                 (store (select (old issued) (aeadkey (. w aesgcm))) (content $r2)
                   (store (select (select (old issued) (aeadkey (. w aesgcm))) (content $r2)) (content $r3) true)))))))
-  (ensures failure-issues-nothing (=> (not (= $r0 200)) (= issued (old issued)))))
+  (ensures failure-issues-nothing (=> (not (= $r0 200)) (= issued (old issued))))
+  (ensures statuses (or (= $r0 200) (= $r0 500))))
 
 (func "(*main.webSessionFactory).openToken"
   (props C07 C06)
@@ -78,6 +79,7 @@ package main
              (= issued (store (old issued) k (store (select (old issued) k) n (store (select (select (old issued) k) n) (sealf k n pt) true))))
              (= $r2 (str.++ (b64enc (global "encoding/base64.URLEncoding") n) ":" (b64enc (global "encoding/base64.URLEncoding") (sealf k n pt))))))))
   (ensures failure-issues-nothing (=> (not (= $r0 200)) (= issued (old issued))))
+  (ensures statuses (or (= $r0 200) (= $r0 500)))
   (ensures issued-wf (issuedwf issued))
   (ensures clock (>= now (old now))))
 
@@ -168,6 +170,8 @@ package main
 
 (func "main.sendWebResponse"
   (props C06 C04)
+  ; net/http panics on a status outside 100..999 (a status variable that was never set): every caller passes a real status
+  (requires valid-status-code (and (>= status 100) (<= status 999)))
   (modifies hstatus hwrites)
   (ensures status (= hstatus (store (old hstatus) w status)))
   (ensures once (= hwrites (store (old hwrites) w (+ 1 (select (old hwrites) w))))))
